@@ -149,6 +149,8 @@ func buildPool(root string, seed uint64, corrupt, churn, large int) error {
 	p.inputs = append(p.inputs, typoSweep(p.inputs, corpus, corrupt >= 1000)...)
 	// operator slips and doubled lists (sweeps2.go)
 	p.inputs = append(p.inputs, slipAndDoubleSweep(rng, p.inputs, corpus, 2*corrupt)...)
+	// stray tails (sweeps2.go): complete statements followed by a token that cannot continue them
+	p.inputs = append(p.inputs, strayTailSweep(p.inputs, corpus, 20+corrupt/15)...)
 	// siblings: same length, same paths as their source, different line structure or one
 	// letter changed (what a cache with a weak key confuses)
 	for i := 0; i < corrupt/2; i++ {
